@@ -1142,3 +1142,7 @@ impl<S: StreamTrait> AbstractStreamManager<S> {
 
 #[cfg(test)]
 mod tests;
+
+#[cfg(all(aws_s2n_quic_verif, any(test, all(kani, feature = "testing"))))]
+#[path = "/verif/harness/transport/manager_insert.rs"]
+mod verif;
